@@ -1259,6 +1259,14 @@ class Evaluator:
                     else:
                         base[self.ev(t.slice)] = value
                     return
+            if isinstance(t, ast.Attribute):
+                base = self.ev(t.value)
+                if not isinstance(base, Abs) and hasattr(base, "__dict__") \
+                        and type(base).__module__.startswith("gfaverif"):
+                    # a concrete stand-in object supplied by a rule (a list
+                    # subclass modelling an array): the attribute is kept
+                    setattr(base, t.attr, value)
+                    return
             raise Unsupported("table evaluator: store %s" % unparse(t))
         if isinstance(st, ast.AugAssign) and \
                 isinstance(st.target, ast.Attribute):
